@@ -44,6 +44,78 @@ CLAIMED = {
         "Trusts our transcription of TeX §649-667, calibrated on all 509 TeX-produced line boxes in the repository's want-files; glue sign is not observable on ds::HBox and is compared in absolute value; Mark/Insertion/Adjust/Math are todo!() in the code and outside the quantifier.",
         "DESIGN.md §6 C15",
     ),
+    "C02": (
+        "runtime monitor: generated \\def specs and calls run in the real VM; bound arguments and expansion observed through the public post_macro_expansion_hook, plus the delivered character stream, run outcome and group depth; compared with a transcription of macro_call (TeX §389-399) cross-checked by a second declarative formulation of argument binding",
+        "Held on the executions produced: exhaustive product of prefixes x 0-2 parameters x 5 delimiter kinds x #{ x 8 replacement texts x all tuples of 12/17 argument shapes (~3e5 calls), 3-parameter specs, and random specs with up to 9 parameters (quick 4.2e5 calls, thorough 6.6e6).",
+        "Trusts our transcription of TeX §389-399 and §473-477, calibrated on 27 rows of the repository's def.rs/expansion.rs tables and the TeXbook p.203 example; arguments never contain the delimiter at depth 0, \\par or unbalanced braces (the quantifier).",
+        "DESIGN.md §6 C02",
+    ),
+    "C03": (
+        "runtime monitor: the real Lexer under arbitrary catcode tables / end-line characters and the same sources through a VM with \\catcode/\\endlinechar changed mid-file; token sequence and every token's Tracer::trace compared with a transcription of TeX's scanner (§343-356); panic oracle; Miri stage (Stacked and Tree Borrows) for the lexer's unsafe in-place write with a UTF-8 probe after every token",
+        "Held on the executions produced: all strings of length <=5 (quick) / <=7 (thorough) over {\\ ^ space newline 5 e e-acute} under 6 tables x 5 end-line chars, 2e6 / 5e7 random adversarial strings with random 16-code tables, 1.2e5 / 3e6 VM runs with just-in-time catcode changes, 240 / 3200 strings under Miri.",
+        "Trusts our transcription of TeX §343-356, calibrated on the 76 lexer_tests cases of the repository (incl. TeXbook exercises 8.2-8.6). Trace leniency exactly as DESIGN §6 C03 G (any column inside a ^^ span; first trimmed column for end-line tokens).",
+        "DESIGN.md §6 C03",
+    ),
+    "C05": (
+        "runtime monitor: real CompiledProgram::compile + run on generated lig/kern programs and words, compared with three independent formulations (cursor interpreter of the raw program, label-by-label transcription of TeX §1034-1040, TFtoPL §88-95 recursive pair evaluation) that must agree with each other; loop reports checked in both directions; conservation of the word",
+        "Held on the executions produced: all 104 976 programs over {a,b} (thorough also 2 x 1.05e7 boundary-rule programs), 6e4 / 2e6 random programs over 3-5 letters with all eight ligature forms, SKIP/STOP chains and boundaries, every word of length <=4 per program plus random words, every corpus font on all character pairs, 83 hand-built TeX-verified cases node by node.",
+        "The three models must agree or the case is INCONCLUSIVE; kern amounts go through our own store_scaled; TeX's lig_ptr bookkeeping and boundary flags are compared node by node only on the hand-built cases (DESIGN guard G).",
+        "DESIGN.md §6 C05",
+    ),
+    "C06": (
+        "runtime monitor: (a) Scaled Display/parse round trip and unit arithmetic at function level against transcriptions of print_scaled/round_decimals/xn_over_d/nx_plus_y; (b) generated assignment and \\advance/\\multiply/\\divide statements run in the real VM in \\nonstopmode, comparing the \\the text, all 24 tracked registers read from state and the recovered-error count and class with a token-level model of scan_int/scan_dimen/scan_glue and TeX §1236-1240",
+        "Held on the executions produced: quick every 257th scaled value + boundaries (8.7e6), thorough ALL 2^31-1 values with |s| <= 2^30-1 (exhaustive); all 30x30 boundary operand pairs for 3 operations x count/dimen/skip; 3e6 / 8e7 random statements (4 radices, sign strings, 11 units, fil/fill/filll, 0-20 fraction digits, coercions, internal quantities as units).",
+        "Trusts our transcription of TeX §99-107, §440-461, §1236-1240, calibrated on 90 unit-test/TeXbook facts and 421 decimals printed by real TeX in the goldens. Where TeX itself would negate -2^31 only 'no crash' is demanded. `true` units and non-standard catcodes are outside the quantifier.",
+        "DESIGN.md §6 C06",
+    ),
+    "C07": (
+        "runtime monitor: generated conditional trees with a unique marker per branch evaluated directly by the generator and compared with the VM's output, followed by a lone \\fi that must raise exactly one error; differential execution of two VMs identical except for the simple vs optimised \\expandafter (output, error, macro-expansion event sequence), additionally compared with a small reference expander (TeX §366-369) on the macro-only subset",
+        "Held on the executions produced: exhaustive \\ifodd/\\ifnum/\\ifcase operand tables, 6e4 / 1.5e6 trees of depth 0-6 whose skipped branches hold unbalanced braces, nested conditionals, \\let-aliases and look-alikes; all 6144 \\expandafter chains k1..k4, 1.2e5 / 3e6 random streams.",
+        "Trusts the generator's own evaluation of the tree and our reference expander (calibrated on 34 + 24 rows of the repository's tables); streams leaving the reference's domain are skipped and counted; \\ifx/\\if/\\ifcat/\\csname do not exist in texlang-stdlib.",
+        "DESIGN.md §6 C07",
+    ),
+    "C10": (
+        "runtime monitor, crash/panic oracle: tfm_to_pl on hostile bytes (all 2^16 values of each of the twelve header words spliced into short files and corpus fonts, truncations at every length, byte mutations) and pl_to_tfm on hostile text (token-level mutations of corpus PLs, generated PLs, table-size and nesting stressors); every PL->TFM output must be accepted by File::deserialize without warning; libFuzzer stage in the thorough tier",
+        "Held on the executions produced: quick ~7e6 inputs, thorough ~1e8 (header sweeps exhaustive in thorough); any panic inside /repo is a violation keyed by (file, function, message).",
+        "Totality is sampled, not proved. The libFuzzer stage contributes nothing (and is recorded as unavailable) if the nightly fuzz build fails. Known finding C10-pl-output-exceeds-tfm-capacity is reported on every run.",
+        "DESIGN.md §6 C10",
+    ),
+    "C11": (
+        "runtime monitor: chain b0 -> PL1 -> b1 -> PL2 -> b2 through the real converters; b2 == b1 byte for byte, PL2 == PL1, no warnings after step one, and File(b0) equivalent to File(b1) both through the crate's public fields and through our own independent TFM reader (exact lig/kern map over every pair and both boundaries, canonical form of b1), plus CompiledProgram::run on characters, pairs and sampled words",
+        "Held on the executions produced: all 94 corpus fonts and clean corpus PLs, 1e4 / 3e5 generated fonts (0-256 characters, 15/15/63 limits, several labels per chain, SKIPs, entry points above 255, boundary characters, NEXTLARGER, VARCHAR) and 6e3 / 1.5e5 meaning-preserving repackings.",
+        "Our TFM reader is calibrated against Knuth's recorded TFtoPL output for 29 corpus pairs; generated PLs that warn in the first step are outside the quantifier (skipped, counted); lossy compression is excluded by construction (C17's subject).",
+        "DESIGN.md §6 C11",
+    ),
+    "C12": (
+        "runtime monitor, conservation checker: the horizontal list before and after the real break_line, the breakpoints and the produced vertical list are checked offline: text -> list spells the words with inter-word glue equal to a transcription of TeX §1041-1044; list -> lines by two formulations that must agree (exact expected content per line; cursor walk consuming each node exactly once in order); geometry, skips (§816/§886-887) and inter-line penalties (§890)",
+        "Held on the executions produced: exhaustive space-factor words (2336) and lists of <=6 items (137 256), 1.5e5 / 3e6 random cmr10 texts with random \\spaceskip/\\xspaceskip/sfcodes/widths/indents/all 17 Knuth-Plass parameters (hyphenation on in 2/3), 3e5 / 6e6 hand-built lists with runs of glue/penalty/kern and discretionaries.",
+        "Calibrated on the repository's 20-row spacing table and 29 TeX-generated goldens (509 line boxes); the hyphenator and the breaker's choice of breakpoints are black boxes here (C13/C14, C04); interline glue presence only; math/mark/insert/adjust nodes excluded (todo!() in hpack).",
+        "DESIGN.md §6 C12",
+    ),
+    "C16": (
+        "runtime monitor: serialize -> deserialize round trip with full consumption on generated op sequences; framing model (TeX §585-591) and panic oracle on arbitrary and mutated bytes; an independent position tracker (h as integer + multiset of unmeasured character widths, v, w/x/y/z, stack, font, page reset) replays the stream before and after VarRemover and compares page, position and font at every typeset character and rule",
+        "Held on the executions produced: every opcode with every truncation, every op at every operand-width boundary, 3e5 / 2e7 sequences of 1-200 ops (document-like, anything-anywhere, move-heavy), 5e5 / 3e7 noise and mutated byte strings.",
+        "The tracker shares no code with the dvi crate; VarRemover sequences keep cumulative coordinates inside i32 (wrap-around is unspecified). Known finding C16-post-post-absorbs-fnt-num-52 is inherent in the byte format.",
+        "DESIGN.md §6 C16",
+    ),
+    "C17": (
+        "runtime monitor: FixWord Display -> real PL reader -> identical 32 bits for sampled (quick) or ALL 2^32 (thorough) bit patterns, the printed text also compared with a transcription of TFtoPL §40-43; to_scaled vs a literal transcription of TeX §571-572 and a closed form that must agree; compress vs a brute-force oracle over all candidate tolerances; NextLargerProgram vs a functional-graph oracle",
+        "Held on the executions produced: quick stride-65521 sweep + boundaries + 6e6 random patterns, thorough exhaustive over all 2^32 patterns; all 2^25 storable values at 10pt + random (value, design size) pairs; 49 140 exhaustive + 2e4 / 2e6 random multisets for compress; all 126 125 functional graphs on <=6 characters + random ones on <=256.",
+        "The single value -2048.0 is outside PLtoTF's legal range and is reported separately (skipped). Calibrated on 35 542 reals from 34 tftopl-written files.",
+        "DESIGN.md §6 C17",
+    ),
+    "C18": (
+        "runtime monitor: print -> parse round trip on generated lists compared by our own deep comparison (three printing paths), format idempotence and parse(format(s)) == parse(s) on rearranged valid programs, panic oracle and located-error check on mutated texts and token soup",
+        "Held on the executions produced: 36 golden Box-language files (5e5 nodes), 1e5 / 1e7 generated hlists/vboxes (any scalar but the double quote, all glue orders, extreme scaled values, nested boxes, insertions, marks, adjusts, math, discretionaries, ligatures), 6e4 / 3e6 relayouts, 2.4e5 / 1.7e7 mutated and random texts.",
+        "The generator stays inside what lang/convert.rs can express (normal kerns, no whatsits); glue ratios compared by the value their printed form carries. Known finding C18-deep-nesting-overflows-stack is probed in a child process.",
+        "DESIGN.md §6 C18",
+    ),
+    "C19": (
+        "runtime monitor: programs against an in-memory file system compared with (O1) a miniature TeX input stack written from tex.web §343-362/482-486/537-538, (O2) the generator's own marker bookkeeping, (O3) the same VM run on the inlined text where inlining is scanner-state neutral; \\read/\\ifeof interleavings on up to 16 streams; nesting chains around the limit of 100; panic oracle and source-stack depth via the H2 snapshot",
+        "Held on the executions produced: every position of \\input/\\endinput in a line over 14 file shapes (6048), every \\openin/\\read/\\ifeof/\\closein sequence of length <=5 on 12 file shapes (16 368), 1.2e3 / 6e3 chains of depth 0-139 and recursive cycles, 1e5 / 3e6 random file trees of depth 0-5, 6e4 / 2e6 random stream programs.",
+        "O1 and O2 must agree or the case is INCONCLUSIVE. Two deviations pinned by the repository's own unit tests (\\endinput drops the rest of its line; \\ifeof true one read early) are known findings with exact deviation models.",
+        "DESIGN.md §6 C19",
+    ),
 }
 
 NOT_CLAIMED = {}
